@@ -20,6 +20,20 @@ func init() {
 			a := sem.Ver{Major: rt.ArgUint(v, "a_major"), Minor: rt.ArgUint(v, "a_minor"), Patch: rt.ArgUint(v, "a_patch"), PreRelease: rt.ArgString(v, "a_pre"), Build: rt.ArgString(v, "a_build")}
 			b := sem.Ver{Major: rt.ArgUint(v, "b_major"), Minor: rt.ArgUint(v, "b_minor"), Patch: rt.ArgUint(v, "b_patch"), PreRelease: rt.ArgString(v, "b_pre"), Build: rt.ArgString(v, "b_build")}
 			c14Pair(w, a, b)
+			// the same pair with the pre-release strings sharing memory, when one is a prefix or suffix of the other
+			switch {
+			case a.PreRelease != "" && strings.HasPrefix(b.PreRelease, a.PreRelease):
+				a.PreRelease = b.PreRelease[:len(a.PreRelease)]
+			case a.PreRelease != "" && strings.HasSuffix(b.PreRelease, a.PreRelease):
+				a.PreRelease = b.PreRelease[len(b.PreRelease)-len(a.PreRelease):]
+			case b.PreRelease != "" && strings.HasPrefix(a.PreRelease, b.PreRelease):
+				b.PreRelease = a.PreRelease[:len(b.PreRelease)]
+			case b.PreRelease != "" && strings.HasSuffix(a.PreRelease, b.PreRelease):
+				b.PreRelease = a.PreRelease[len(a.PreRelease)-len(b.PreRelease):]
+			default:
+				return
+			}
+			c14Pair(w, a, b)
 		})
 		return c.Report()
 	}
@@ -316,6 +330,22 @@ func runC14(c *rt.Ctx) {
 		c.Exhaustive(fmt.Sprintf("all ordered pairs of the %d identifier lists of 1..3 identifiers over %v", len(lists), idents))
 		c.Require("identifier-lists-same-byte-length-different-shape", 100000)
 	}
+
+	// pre-release strings sharing memory (prefix and suffix slices of one string)
+	c.Parallel("shared-backing-strings", 0, func(w *rt.W) {
+		for i := w.Shard; i < len(u); i += w.NShards {
+			s := u[i]
+			for cut := 1; cut < len(s); cut++ {
+				for _, part := range []string{s[:cut], s[cut:]} {
+					if ref.ValidPre(part) {
+						c14Pair(w, sem.Ver{Major: 1, PreRelease: part, Build: s[:cut]}, sem.Ver{Major: 1, PreRelease: s, Build: s[:cut]})
+						w.ClassN("pre-releases-sharing-memory", 1)
+					}
+				}
+			}
+		}
+	})
+	c.Require("pre-releases-sharing-memory", 1000)
 
 	nRand := c.Pick(400000, 20000000)
 	c.Parallel("random-versions", 0, func(w *rt.W) {
